@@ -150,18 +150,23 @@ func c08(run *ev.Run, tier string) {
 	}
 	plain := mkfile("plain.txt", "plain\n")
 	src := mkfile("entry.src", "entry source\n")
+	noPerm := mkfile("no-permission-bits.pid", "1\n")
+	_ = os.Chmod(noPerm, 0)
 	treeDir := filepath.Join(dir, "tree")
 	mkfile("tree/a.txt", "a\n")
 	mkfile("tree/sub/b.txt", "b\n")
 	var checked int64
-	types := []string{"file", "config", "config|noreplace", "config|missingok", "ghost", "ghost:missing-src", "doc", "licence", "license", "readme", "dir", "symlink", "tree"}
+	types := []string{"file", "config", "config|noreplace", "config|missingok", "ghost", "ghost:missing-src", "ghost:src-without-permission-bits", "doc", "licence", "license", "readme", "dir", "symlink", "tree"}
 	tags := append([]string{""}, formats...)
-	type cell struct{ t, tag, f string }
+	type cell struct {
+		t, tag, f string
+		expand    bool // the entry opts into environment expansion of src/dst
+	}
 	var cells []cell
 	for _, t := range types {
 		for _, tag := range tags {
 			for _, f := range formats {
-				cells = append(cells, cell{t, tag, f})
+				cells = append(cells, cell{t, tag, f, false}, cell{t, tag, f, true})
 			}
 		}
 	}
@@ -178,12 +183,18 @@ func c08(run *ev.Run, tier string) {
 	parallel(len(cells), 8, func(i int) {
 		c := cells[i]
 		s := base()
-		e := &gen.Content{Type: c.t, Packager: c.tag, Dst: "/etc/typ/entry"}
+		e := &gen.Content{Type: c.t, Packager: c.tag, Dst: "/etc/typ/entry", Expand: c.expand}
 		if c.t == "ghost:missing-src" {
 			// the run-time file a ghost stands for may be named as src; it need not
 			// exist on the build host
 			c.t = "ghost"
 			e.Type, e.Src = "ghost", "/nonexistent-verif/run/typ.pid"
+		}
+		if c.t == "ghost:src-without-permission-bits" {
+			// the named source exists but contributes no permission bits (mode 000):
+			// the documented default still applies
+			c.t = "ghost"
+			e.Type, e.Src = "ghost", noPerm
 		}
 		switch c.t {
 		case "dir":
@@ -207,7 +218,7 @@ func c08(run *ev.Run, tier string) {
 		cs := mkCase(s)
 		relevant := (c.tag == "" || c.tag == c.f) && (c.f == "rpm" || !(c.t == "ghost" || c.t == "doc" || c.t == "licence" || c.t == "license" || c.t == "readme"))
 		special := isConfigType(c.t) || wantRpmFlags(c.t) != 0
-		run.Case(fmt.Sprintf("cell|%s|%s|%s", c.t, c.tag, c.f), relevant && special)
+		run.Case(fmt.Sprintf("cell|%s|%s|%s|expand=%v", c.t, c.tag, c.f, c.expand), relevant && special)
 		res := buildYAML(s.YAML(), c.f)
 		if res.Err != nil || res.Panic != "" {
 			run.Violate("C08/"+c.f+"/build-error", map[string]any{"cell": c, "type": c.t, "tag": c.tag, "error": fmt.Sprint(res.Err, ev.Short(res.Panic, 300))})
@@ -308,6 +319,42 @@ func c08(run *ev.Run, tier string) {
 					}
 					if !registered {
 						run.Violate("C08/"+f+"/declared-config-silently-demoted/"+first, map[string]any{"type": t, "broad_entry_first": order[0] == broad})
+					}
+				}
+			}
+		}
+	}
+	// configuration files whose source path runs through a symbolically linked
+	// directory (linked checkout / workspace) are ordinary files and stay registered
+	{
+		real := filepath.Join(dir, "real-workspace")
+		_ = os.MkdirAll(real, 0o755)
+		_ = os.WriteFile(filepath.Join(real, "linked.conf"), []byte("conf\n"), 0o644)
+		_ = os.Symlink(real, filepath.Join(dir, "linked-workspace"))
+		via := filepath.Join(dir, "linked-workspace", "linked.conf")
+		for _, t := range []string{"config", "config|noreplace", "config|missingok"} {
+			for _, srcSpelling := range []string{via, filepath.Join(dir, "linked-workspace") + "/*.conf"} {
+				s := base()
+				dst := "/etc/typ/linked.conf"
+				if strings.Contains(srcSpelling, "*") {
+					dst = "/etc/typ"
+				}
+				s.Contents = append(s.Contents, &gen.Content{Type: t, Src: srcSpelling, Dst: dst, Exp: []gen.Expect{{Dst: "/etc/typ/linked.conf", Kind: "file", Src: via, Node: node}}})
+				cs := mkCase(s)
+				for _, f := range formats {
+					run.Case(fmt.Sprintf("source-behind-linked-directory|%s|glob=%v|%s", t, strings.Contains(srcSpelling, "*"), f), true)
+					res := buildYAML(s.YAML(), f)
+					if res.Err != nil || res.Panic != "" {
+						run.Violate("C08/"+f+"/build-error", map[string]any{"source": "behind a symbolically linked directory", "type": t, "error": fmt.Sprint(res.Err, res.Panic)})
+						continue
+					}
+					p := dec.Decode(f, res.Bytes, false)
+					if e := p.Find("/etc/typ/linked.conf"); e == nil || e.Kind != "file" {
+						run.Violate("C08/"+f+"/config-file-not-shipped-as-file/source-behind-linked-directory", map[string]any{"type": t, "found": e != nil})
+						continue
+					}
+					for _, pr := range typingProblems(f, p, cs.Plan(f), &checked) {
+						run.Violate("C08/"+f+"/"+pr.kind, map[string]any{"source": "behind a symbolically linked directory", "type": t, "detail": pr.detail})
 					}
 				}
 			}
